@@ -8,6 +8,7 @@ import (
 	"encoding/json"
 	"errors"
 	"fmt"
+	"k8s.io/apimachinery/pkg/runtime/schema"
 	"net/http"
 	"os"
 	"sort"
@@ -85,6 +86,29 @@ type sysRun struct {
 type sysIn struct {
 	Pre  []sysObj `json:"pre"`
 	Runs []sysRun `json:"runs"`
+	// PreInv: the inventory object exists before the first run and lists these ids (whatever they are: objects of types that
+	// are not registered any more included)
+	PreInv []jid `json:"preInv,omitempty"`
+}
+
+// seedInventory stores the inventory object a history starts with
+func seedInventory(c *fakecluster.Cluster, ids []jid) {
+	if len(ids) == 0 {
+		return
+	}
+	cm := &unstructured.Unstructured{Object: map[string]interface{}{
+		"apiVersion": "v1", "kind": "ConfigMap",
+		"metadata": map[string]interface{}{"name": sysInvName, "namespace": sysInvNs, "labels": map[string]interface{}{common.InventoryLabel: sysInvID}},
+	}}
+	w := inventory.WrapInventoryObj(cm)
+	_ = w.Store(fromJids(ids), nil)
+	obj, err := w.GetObject()
+	if err != nil {
+		return
+	}
+	if k, ok := keyOf(jid{sysInvNs, sysInvName, "", "ConfigMap"}); ok {
+		c.Put(k, obj)
+	}
 }
 
 // the target field of apply-time mutation holds a token inside a fixed text; snapshots report what replaced the token
@@ -122,6 +146,7 @@ var sysKinds = []sysKindInfo{
 	{"", "v1", "Secret", "secrets", true},
 	{"apps", "v1", "Deployment", "deployments", true},
 	{"rbac.authorization.k8s.io", "v1", "ClusterRole", "clusterroles", false},
+	{"apiregistration.k8s.io", "v1", "APIService", "apiservices", false}, // only the `apisvc` domain applies one
 }
 
 func kindOf(group, kind string) *sysKindInfo {
@@ -581,6 +606,14 @@ func runOne(c *fakecluster.Cluster, run sysRun) (out runOut) {
 	if err != nil {
 		out.Anomaly = "mapper: " + err.Error()
 		return
+	}
+	{
+		// the APIService kind (domain apisvc) is not in the test factory's scheme
+		gvk := schema.GroupVersionKind{Group: "apiregistration.k8s.io", Version: "v1", Kind: "APIService"}
+		gvr := gvk.GroupVersion().WithResource("apiservices")
+		extra := meta.NewDefaultRESTMapper([]schema.GroupVersion{gvk.GroupVersion()})
+		extra.AddSpecific(gvk, gvr, gvr, meta.RESTScopeRoot)
+		mapper = meta.MultiRESTMapper{mapper, extra}
 	}
 	dyn := c.Dynamic()
 	f := &sysFactory{TestFactory: tf, dyn: dyn}
@@ -1122,6 +1155,7 @@ func runSysOnce(in sysIn) (map[string]any, bool) {
 			c.Put(k, manifest(o))
 		}
 	}
+	seedInventory(c, in.PreInv)
 	runs := []runOut{}
 	raced := false
 	for _, r := range in.Runs {
@@ -1140,6 +1174,7 @@ func c0(in sysIn) *fakecluster.Cluster {
 			c.Put(k, manifest(o))
 		}
 	}
+	seedInventory(c, in.PreInv)
 	return c
 }
 
